@@ -80,6 +80,19 @@ def run(ctx):
     rm = vlib.model(201, rlines)
     rd = vlib.code(202, rlines)      # the public search_reader (transcoding reader in between)
     sc = vlib.code(301, slines)
+    # a Searcher is reused for every file of a walk: the second search must not depend on the first
+    tidx = list(range(0, len(rlines), 4))
+    tw = vlib.code(203, [rlines[i] for i in tidx])
+    for i, t in zip(tidx, tw):
+        if t != rd[i]:
+            a, b = split(t), split(rd[i])
+            early = cases[i]["cfg"]["stop_on_nonmatch"] or meta[i][3] is not None
+            if a is not None and b is not None and (a[0], a[1]) == (b[0], b[1]) and early:
+                # only the byte count of an early-ended search differs (the reused buffer has another capacity): D8
+                ctx.known(KNOWN_D8, "reused searcher: case=%r fresh finish=%r reused finish=%r" % (sg.describe(cases[i]), b[2], a[2]))
+            else:
+                ctx.violation("the second search_reader of a reused Searcher differs from the search by a fresh Searcher",
+                              dict(kind=203, line=rlines[i], case=sg.describe(cases[i]), fresh=rd[i], reused=t))
     stats = dict(alloc_error=0, early_end=0, rolled=0, grew=0, stopped=0)
     for case, (cap, pol, hist, reply), rl, sl, c, m, s, d in zip(cases, meta, rlines, slines, rc, rm, sc, rd):
         # the public entry point sees another fragmentation (the decoder's); only the byte count of an
@@ -144,6 +157,14 @@ def cli(ctx):
         for i in range(n):
             lines = [bytes(rng.choice(b"ab x") for _ in range(rng.randint(0, 5))) for _ in range(rng.randint(1, 9))]
             data = b"\n".join(lines) + (b"\n" if rng.random() < 0.8 else b"")
+            # a byte-order mark makes every strategy go through the transcoder (mmap and slices via slice_has_bom)
+            enc = rng.choice([None, None, "utf-16le", "utf-16be", "utf-8-bom"]) if i % 2 else ["utf-16be", "utf-16le", "utf-8-bom", None][(i // 2) % 4]
+            if enc == "utf-16le":
+                data = b"\xff\xfe" + data.decode("ascii").encode("utf-16le")
+            elif enc == "utf-16be":
+                data = b"\xfe\xff" + data.decode("ascii").encode("utf-16be")
+            elif enc == "utf-8-bom":
+                data = b"\xef\xbb\xbf" + data
             f = os.path.join(d, "f%d" % i)
             open(f, "wb").write(data)
             flags = ["-n", "-b"]
@@ -166,7 +187,7 @@ def cli(ctx):
             runs += 3
             if not (outs[0] == outs[1] == outs[2]):
                 ctx.violation("rg --mmap / --no-mmap / stdin print different results",
-                              dict(kind="cli", flags=flags, pattern=pat, data=repr(data), outs=[repr(o) for o in outs]))
+                              dict(kind="cli", flags=flags, pattern=pat, encoding=enc, data=repr(data), outs=[repr(o) for o in outs]))
     ctx.cov["cli_runs"] = runs
 
 
